@@ -1,10 +1,13 @@
 //! vsim library: engines S1/S2 (the repository's unmodified arch-specific sources compiled on the
 //! host against simulated memory).  Used by the `vsim` binary and by the libFuzzer target.
 
+#[cfg(feature = "s1")]
 pub mod s1;
+#[cfg(feature = "s2")]
 pub mod s2;
 pub mod selftest;
 pub mod shim;
+pub mod sut;
 
 include!(concat!(env!("OUT_DIR"), "/variants.rs"));
 
